@@ -307,3 +307,40 @@ __CPROVER_ensures(!g_has_invalid ==> (g_removed_total == 0 && C_(self)->n == OLD
     dropped=['the predicate lambda (unit BW.cleanup_pred): its answer per context is the ghost flag', 'assert (NDEBUG)', 'iterators as indices'],
     trusted=['cache abstracted to {one tracked context, one representative of the others}; std::find_if returns the first accepted element or end()', 'remove_shared_invalidated_thread_context by unit TCM.remove'], min_obligations=30)
 UNITS.append(cleanup_tc)
+
+# ------------------------------------------------------------------------------------------ _try_shrink_empty_transit_event_buffers
+TS_PRELUDE = r'''
+typedef struct TEBs { size_t g_try_shrinks; } TEBs;
+typedef struct TCx { TEBs* _transit_event_buffer; } TCx;
+typedef struct CVec { size_t n; size_t g_p; TCx* tracked; TCx* other; } CVec;
+typedef struct BW { CVec _active_thread_contexts_cache; } BW;
+static inline size_t CVec_size(CVec* v) { return v->n; }
+static inline TCx* CVec_get(CVec* v, size_t i) { return i == v->g_p ? v->tracked : v->other; }
+/* TransitEventBuffer::try_shrink (unit TEB.try_shrink: acts only on an empty buffer with a pending request) */
+void TEB_try_shrink(TEBs* b) __CPROVER_assigns(b->g_try_shrinks) __CPROVER_ensures(b->g_try_shrinks == OLD(b->g_try_shrinks) + 1);
+#define T_(s) ((s)->_active_thread_contexts_cache.tracked)
+#define O_(s) ((s)->_active_thread_contexts_cache.other)
+'''
+try_shrink_all = dict(
+    name='BW.try_shrink_all', primary='C20', props={'C20'}, kind='S',
+    desc='BackendWorker::_try_shrink_empty_transit_event_buffers: every cached context that has a backend buffer gets exactly one try_shrink per idle pass (a requested shrink takes effect once the buffer is empty)',
+    structs=[], prelude=TS_PRELUDE, enforce='BW__try_shrink_empty_transit_event_buffers', replace=['TEB_try_shrink'], loopcontracts=True,
+    funcs=[dict(src=dict(header=H, cls='BackendWorker', name='_try_shrink_empty_transit_event_buffers'), src_params=[], cfun='BW__try_shrink_empty_transit_event_buffers',
+                sig='void BW__try_shrink_empty_transit_event_buffers(BW* self)', cls_c='BW', member_fields=['_active_thread_contexts_cache'], methods={'try_shrink': 'TEB_try_shrink'},
+                range_for=[(r'_active_thread_contexts_cache', 'CVec_size', 'CVec_get', 'TCx*')],
+                loops={0: r'''
+__CPROVER_assigns(__i0; T_(self)->_transit_event_buffer != NULL: T_(self)->_transit_event_buffer->g_try_shrinks; O_(self)->_transit_event_buffer != NULL: O_(self)->_transit_event_buffer->g_try_shrinks)
+__CPROVER_loop_invariant(__i0 <= self->_active_thread_contexts_cache.n)
+__CPROVER_loop_invariant(T_(self)->_transit_event_buffer != NULL ==> T_(self)->_transit_event_buffer->g_try_shrinks == ((__i0 > self->_active_thread_contexts_cache.g_p) ? 1 : 0))
+__CPROVER_decreases(self->_active_thread_contexts_cache.n - __i0)
+'''},
+                contract=r'''
+__CPROVER_requires(__CPROVER_is_fresh(self, sizeof(*self)) && __CPROVER_is_fresh(T_(self), sizeof(TCx)) && __CPROVER_is_fresh(O_(self), sizeof(TCx)))
+__CPROVER_requires((T_(self)->_transit_event_buffer == NULL || (__CPROVER_is_fresh(T_(self)->_transit_event_buffer, sizeof(TEBs)) && T_(self)->_transit_event_buffer->g_try_shrinks == 0)) && (O_(self)->_transit_event_buffer == NULL || __CPROVER_is_fresh(O_(self)->_transit_event_buffer, sizeof(TEBs))))
+__CPROVER_assigns(T_(self)->_transit_event_buffer != NULL: T_(self)->_transit_event_buffer->g_try_shrinks)
+__CPROVER_assigns(O_(self)->_transit_event_buffer != NULL: O_(self)->_transit_event_buffer->g_try_shrinks)
+__CPROVER_ensures((T_(self)->_transit_event_buffer != NULL && self->_active_thread_contexts_cache.g_p < self->_active_thread_contexts_cache.n) ==> T_(self)->_transit_event_buffer->g_try_shrinks == 1) /*@ C20 "every thread's backend buffer is offered its pending shrink once per idle pass" */
+''')],
+    harness='  BW* s; BW__try_shrink_empty_transit_event_buffers(s);',
+    dropped=[], trusted=['cache abstracted to {one tracked context, one representative of the others}', 'TransitEventBuffer::try_shrink by unit TEB.try_shrink'], min_obligations=10)
+UNITS.append(try_shrink_all)
